@@ -22,6 +22,10 @@ enum Pattern {
     BrokenPipe(usize),
     /// healthy but with co-operative yields on writes
     Yielding,
+    /// from message a on the subscriber does not read, and its own sending direction ends: it shuts
+    /// it down (false) or sends bytes the decoder rejects (true). The socket learns on its read
+    /// side that the peer is gone while its write side is merely stalled with a backlog
+    StallThenEndInbound(usize, bool),
 }
 
 struct Out {
@@ -64,7 +68,7 @@ pub fn slow_world(ctx: &mut Ctx) {
     let patterns: Vec<Pattern> = (0..nvict)
         .map(|v| {
             // the case index walks the stall pattern of the first victim
-            let which = if v == 0 { (ctx.idx / 2) % 5 } else { ctx.plan(5) };
+            let which = if v == 0 { (ctx.idx / 2) % 6 } else { ctx.plan(6) };
             match which {
                 0 => Pattern::AcceptThenStall(ctx.plan_pick(&[0usize, 1, 100, 65_536, 131_071, 131_072, 131_073, 300_000])),
                 1 => {
@@ -73,6 +77,7 @@ pub fn slow_world(ctx: &mut Ctx) {
                 }
                 2 => Pattern::NeverDrain,
                 3 => Pattern::BrokenPipe(ctx.plan(m as u64) as usize),
+                4 => Pattern::StallThenEndInbound(1 + ctx.plan(m as u64 - 1) as usize, ctx.plan_bool()),
                 _ => Pattern::Yielding,
             }
         })
@@ -141,6 +146,18 @@ pub fn slow_world(ctx: &mut Ctx) {
                 match p {
                     Pattern::StallResume(a, _) if *a == i => victims[vi].as_ref().unwrap().conn.set_stall(1, true),
                     Pattern::StallResume(_, b) if *b == i => victims[vi].as_ref().unwrap().conn.set_stall(1, false),
+                    Pattern::StallThenEndInbound(a, garbage) if *a == i => {
+                        if let Some(v) = victims[vi].as_mut() {
+                            v.conn.set_auto_drain(1, false);
+                            v.conn.set_stall(1, true);
+                            if *garbage {
+                                let _ = v.send(&[0xf8, 1, b'x']).await;
+                                rt::count("fault_subscriber_sent_garbage_while_stalled");
+                            } else {
+                                v.half_close();
+                            }
+                        }
+                    }
                     Pattern::BrokenPipe(a) if *a == i => {
                         if let Some(v) = victims[vi].take() {
                             o2.borrow_mut().victim_taps.push((*p, v.inbound_raw(), 0));
@@ -236,7 +253,7 @@ pub fn slow_world(ctx: &mut Ctx) {
                 ctx.probe("victim_missed_messages");
             }
             // a subscriber whose pipe never said Pending misses none (BrokenPipe victims excepted)
-            if *pend == 0 && !matches!(p, Pattern::BrokenPipe(_)) && got.len() != o.published.len() {
+            if *pend == 0 && !matches!(p, Pattern::BrokenPipe(_) | Pattern::StallThenEndInbound(..)) && got.len() != o.published.len() {
                 ctx.violation("accepting_subscriber_missed_messages", format!("pattern {p:?}: its pipe accepted every write, yet it received {} of {} messages", got.len(), o.published.len()));
             }
         }
